@@ -439,6 +439,12 @@ impl Iterator for ClosestBucketsIter {
                 if let Some(i) = self.next_in(i) {
                     self.state = ClosestBucketsIterState::ZoomIn(i);
                     Some(i)
+                } else if i.get() == 0 {
+                    // Bucket `0` has already been yielded while zooming in (or as
+                    // the starting bucket), so continue zooming out from there
+                    // without yielding it a second time.
+                    self.state = ClosestBucketsIterState::ZoomOut(i);
+                    self.next()
                 } else {
                     let i = BucketIndex(0);
                     self.state = ClosestBucketsIterState::ZoomOut(i);
